@@ -248,7 +248,7 @@ pub fn main(seed: u64, tier: &str, only: Option<&str>) {
         }
         return;
     }
-    let n = if tier == "thorough" { 6000 } else { 400 };
+    let n = if tier == "thorough" { 6000 * crate::out::thorough_scale() } else { 400 };
     let mut batch = vec![];
     for case in 0..n {
         let mut rng = Rng::new(seed ^ 0xe8ec, case as u64);
